@@ -40,6 +40,19 @@ def run(ctx):
     tpath = os.path.join(ctx.tmp, "lt_trace.ndjson")
     ctx.go_run("linktable", ["-behaviours", bpath, "-out", tpath], timeout=3000)
     rows = vlib.read_ndjson(tpath)
+    if prop == "C04":
+        # the same histories once more with controller c1 NOT pinned to a peer id (it resolves its identity through the bus)
+        upath = os.path.join(ctx.tmp, "lt_trace_unpinned.ndjson")
+        ctx.go_run("linktable", ["-behaviours", bpath, "-out", upath], timeout=3000, env={"VERIF_UNPINNED": "1"})
+        urows = vlib.read_ndjson(upath)
+        nb = len(behs)
+        for x in urows:
+            if x["e"] == "reset":
+                x["b"] += nb
+        rows = rows + urows
+        behs = behs + behs
+        vlib.write_ndjson(tpath, rows)
+        ctx.cov["unpinned_controller_histories"] = nb
     ctx.traces += len(behs)
     ctx.evaluations += sum(1 for x in rows if x["e"] == "q")
     for b in behs:
@@ -76,10 +89,27 @@ def run(ctx):
     ctx.cov["strict_conformance"] = "accepted" if ok2 else "SPEC-DRIFT"
     if not ok2:
         vlib.log("SPEC-DRIFT property=%s: recorded traces are not behaviours of LinkTable.tla (advisory)" % prop)
+    if prop == "C04":
+        selfdial(ctx)
     if prop == "C06":
         quic_links(ctx)
         flash(ctx)
         storm(ctx)
+
+
+def selfdial(ctx):
+    """C04: a controller that is not pinned to a peer id (it resolves its peer through the bus) dials its own address over real QUIC:
+    the links whose remote peer is the local peer are closed and never reported / yielded"""
+    opath = os.path.join(ctx.tmp, "selfdial.ndjson")
+    ctx.go_run("quicnet", ["-mode", "selfdial", "-out", opath], timeout=600)
+    x = vlib.read_ndjson(opath)[-1]
+    if not x["resolved_local"] or not x["dial_completed"]:
+        raise vlib.Infra("quicnet selfdial: the self-dial did not take place (%s)" % x)
+    ctx.evaluations += 2
+    ctx.cov["self_dial_over_quic"] = True
+    if x["self_links_reported"] or x["self_link_values"]:
+        ctx.violation("C04:selfdial:a link whose remote peer is the local peer is reported",
+                      "after dialing its own address an unpinned controller reports %d link(s) to itself and yields %d value(s) for a request for a link to itself" % (x["self_links_reported"], x["self_link_values"]), x)
 
 
 def flash(ctx):
